@@ -299,13 +299,21 @@ func (x *X) finishRun(res simrt.Result) {
 	}
 	h := fnv.New64a()
 	for _, e := range sim.FS.Log {
-		fmt.Fprintf(h, "%d|%s|%s|%s|%s\n", e.N, e.Task, e.Op, strings.TrimPrefix(e.Path, x.root), e.Err)
+		fmt.Fprintf(h, "%d|%s|%s|%s|%s\n", e.N, e.Task, e.Op, strings.ReplaceAll(e.Path, x.root, ""), e.Err)
 	}
 	out.EventHash = h.Sum64() ^ sim.TraceHash
+	if d := os.Getenv("VERIF_DUMPLOG"); d != "" {
+		var sb strings.Builder
+		for _, e := range sim.FS.Log {
+			fmt.Fprintf(&sb, "%d|%s|%s|%s|%s|%s\n", e.N, e.Task, e.Tag, e.Op, strings.ReplaceAll(e.Path, x.root, ""), e.Err)
+		}
+		fmt.Fprintf(&sb, "steps=%d trace=%x fp=%x\n", sim.Steps, sim.TraceHash, x.fp)
+		_ = os.WriteFile(fmt.Sprintf("%s.%d", d, runCounter), []byte(sb.String()), 0644)
+	}
 	n := len(sim.FS.Log)
 	for i := max(0, n-25); i < n; i++ {
 		e := sim.FS.Log[i]
-		out.LogTail = append(out.LogTail, fmt.Sprintf("%d %s %s %s %s", e.N, e.Task, e.Op, strings.TrimPrefix(e.Path, x.root), e.Err))
+		out.LogTail = append(out.LogTail, fmt.Sprintf("%d %s %s %s %s", e.N, e.Task, e.Op, strings.ReplaceAll(e.Path, x.root, ""), e.Err))
 	}
 	out.Fingerprint = x.fp
 }
